@@ -298,7 +298,7 @@ theorem prefixFold (l : List Rat) (pre : List Rat) (s : Rat) :
     congr 2
     apply List.map_congr_left
     intro k _
-    simp only [Function.comp, Nat.succ_eq_add_one, List.take_succ_cons, List.sum_cons]; ring
+    simp only [Function.comp, Nat.succ_eq_add_one]; ring
 
 theorem prefixSums_eq (l : List Rat) :
     prefixSums l = (List.range l.length).map fun k => (l.take (k + 1)).sum := by
